@@ -1,0 +1,34 @@
+//go:build verif
+
+package codegen
+
+import "strings"
+
+// Verification hook (build tag `verif`, add-only) for property C16: drives the
+// GLSL namer with a sequence of operations so that the external harness can
+// compare it with its formal model. Not part of the API.
+//
+//	"c" + label   namer.call(label) -> the issued name
+//	"{"           a fresh member namer, as registerNames does for struct members
+//	              (memberNamer := newNamer()) -> ""
+//	"}"           back to the enclosing namer -> ""   (ignored when unmatched)
+func VerifNamerRun(ops []string) []string {
+	n := newNamer()
+	var stack []*namer
+	out := make([]string, len(ops))
+	for i, op := range ops {
+		switch {
+		case op == "{":
+			stack = append(stack, n)
+			n = newNamer()
+		case op == "}":
+			if len(stack) > 0 {
+				n = stack[len(stack)-1]
+				stack = stack[:len(stack)-1]
+			}
+		case strings.HasPrefix(op, "c"):
+			out[i] = n.call(op[1:])
+		}
+	}
+	return out
+}
